@@ -93,3 +93,89 @@ def representatives():
         for a in grp:
             reps.append((a, name))
     return reps
+
+
+# ---------------------------------------------------------------------------------------
+# string literal generator: every escape form next to every kind of follower
+# ---------------------------------------------------------------------------------------
+
+_SIMPLE_ESC = [b'\\n', b'\\t', b'\\a', b'\\b', b'\\f', b'\\r', b'\\v', b'\\\\', b'\\"', b"\\'",
+               b'\\*', b'\\#', b'\\-', b'\\|', b'\\+', b'\\^']
+_DEC_VALUES = [0, 1, 2, 6, 7, 9, 10, 13, 14, 15, 16, 31, 32, 34, 39, 48, 57, 65, 92, 99, 100, 127, 128, 200, 255]
+_FOLLOW = [b'0', b'1', b'9', b'a', b'f', b'F', b'x', b'z', b' ', b'"', b"'", b'n', b'\\\\', b'']
+
+
+def string_piece(ch, quote, allow_z=True):
+    k = ch.below(14)
+    if k <= 3:
+        b = ch.byte()
+        if b in (quote, 0x5c, 0x0a, 0x0d):
+            b = 0x71
+        return bytes((b,))
+    if k == 4:
+        return bytes((ch.pick([0x00, 0x01, 0x06, 0x07, 0x0e, 0x0f, 0x1f, 0x7f, 0x80, 0xff, 0x09, 0x0b]),))
+    if k <= 6:
+        return ch.pick(_SIMPLE_ESC)
+    if k <= 9:
+        v = ch.pick(_DEC_VALUES)
+        width = 1 + ch.below(3)
+        return b'\\' + str(v).zfill(width).encode() + ch.pick(_FOLLOW)
+    if k == 10:
+        return b'\\x' + ch.pick([b'00', b'0a', b'41', b'7F', b'80', b'ff', b'5c', b'22', b'0e']) + ch.pick(_FOLLOW)
+    if k == 11:
+        return b'\\' + ch.pick([b'\n', b'\r\n']) + ch.pick([b'', b' ', b'x'])
+    if k == 12 and allow_z:
+        return b'\\z' + ch.pick([b'', b' ', b'  \t', b'\n  ', b' \r\n\t']) + ch.pick([b'x', b'1', b''])
+    return ch.pick([b'--', b'//', b'[[', b']]', b'end', b'#include x.lua', b'__lua__', b'?'])
+
+
+def gen_string(ch, allow_z=True):
+    """Source text of one string literal (quoted or long-bracket) built from pieces."""
+    if ch.below(5) == 0:
+        lvl = ch.below(4)
+        pieces = []
+        if ch.chance(90):
+            pieces.append(ch.pick([b'\n', b'\r\n']))
+        for _ in range(ch.below(6)):
+            k = ch.below(8)
+            if k <= 2:
+                pieces.append(bytes((ch.pick(b'abc xyz019_"\'\\-/['),)) * (1 + ch.below(3)))
+            elif k == 3:
+                pieces.append(ch.pick([b'\n', b'\r\n', b'\n\n', b' \n', b'\t']))
+            elif k == 4:
+                pieces.append(ch.pick([b']', b']]', b']=]', b']==]', b'[[', b'[=[', b']=', b'=]']))
+            elif k == 5:
+                pieces.append(bytes((0x80 + ch.below(0x80),)))
+            elif k == 6:
+                pieces.append(ch.pick([b'\\n', b'\\', b'\\z', b'--', b'--[[', b'//']))
+            else:
+                pieces.append(bytes((1 + ch.below(31),)).replace(b'\r', b'\x0b'))
+        return b'[' + b'=' * lvl + b'[' + b''.join(pieces) + b']' + b'=' * lvl + b']'
+    q = ch.pick(b'"\'')
+    body = b''.join(string_piece(ch, q, allow_z) for _ in range(ch.below(7)))
+    return bytes((q,)) + body + bytes((q,))
+
+
+def string_soup(ch, allow_z=True):
+    """A few statements/soup atoms around generated string literals."""
+    parts = []
+    for _ in range(1 + ch.below(5)):
+        k = ch.below(6)
+        s = gen_string(ch, allow_z)
+        if k == 0:
+            parts.append(b'x=' + s)
+        elif k == 1:
+            parts.append(b'f' + s)
+        elif k == 2:
+            parts.append(b't={' + s + b',[' + gen_string(ch, allow_z) + b']=1}')
+        elif k == 3:
+            parts.append(b'?' + s)
+        elif k == 4:
+            parts.append(b'a=' + s + b'..' + gen_string(ch, allow_z))
+        else:
+            parts.append(b'print(' + s + b')')
+        parts.append(ch.pick([b'\n', b'\r\n', b' ', b'\n\n', b' -- c\n', b';']))
+    src = b''.join(parts)
+    if ch.chance(60):
+        src = src.rstrip(b'\r\n ')
+    return src
